@@ -94,6 +94,8 @@ def ttm_transpose(E, s):
 def ttm_binop(E, s):
     A, Ac = tt_input(E, 'A', s['N'], s['RA'], s['dtype'], s['M'], via=s.get('via'))
     B, Bc = tt_input(E, 'B', s['N'], s['RB'], s['dtype'], s['M'], via=s.get('via'))
+    if s.get('alias'):
+        B, Bc = (A, Ac) if s['alias'] == 'same' else (E.tt.TT(A.cores), Ac)        # A (op) A, or a second object over the same core list
     Ad, Bd = dense(E, Ac), dense(E, Bc)
     op = s['op']
     if op == 'add':
@@ -106,13 +108,15 @@ def ttm_binop(E, s):
     E.true('is_ttm', isinstance(Y, E.tt.TT) and Y.is_ttm)
     E.eq('value', dense(E, Y.cores), ref)
     E.true('shape', list(Y.M) == list(s['M']) and list(Y.N) == list(s['N']))
+    RB_ = s['RA'] if s.get('alias') else s['RB']
     if op in ('add', 'sub'):
-        exp = [1] + [s['RA'][k] + s['RB'][k] for k in range(1, d)] + [1]
+        exp = [1] + [s['RA'][k] + RB_[k] for k in range(1, d)] + [1]
     else:
-        exp = [a * b for a, b in zip(s['RA'], s['RB'])]
+        exp = [a * b for a, b in zip(s['RA'], RB_)]
     E.true('ranks', list(Y.R) == exp)
     E.true('dtype', all(E.dtname(c) == s['dtype'] for c in Y.cores))
     E.eq('full', Y.full(), ref)
+    E.eq('operand_intact', dense(E, A.cores), Ad)
 
 
 @scenario
